@@ -28,7 +28,7 @@ def check(run):
     R = run
     R.rule('C18.shared', 'objects created once per class / per function definition (class-level attributes, parameter '
            'defaults) are only read: no buffer, validator, poll object, header list or option dict is shared between '
-           'connections', 2)
+           'connections', 1)
     from .common import shared_state
     shared_state(R, 'C18.shared')
     R.rule('C18.pending', 'the blocking wait is reached only after the pending() short-cut was tested and found empty; '
@@ -84,8 +84,12 @@ def level(R):
          func=(bad[0][0] if bad else None), node=(bad[0][1] if bad else None), construct=('readiness flag %s' % U(bad[0][1])) if bad else '')
     m = R.prog.modules['selectors']
     cands = set()
+    def leaves(v):
+        if isinstance(v, ast.IfExp):
+            return leaves(v.body) | leaves(v.orelse)
+        return {U(v)}
     for v in m.globals.get('PlatformSelector', []):
-        cands.add(U(v))
+        cands |= leaves(v)                       # a chained conditional expression selects among the same classes
     R.ob('C18.level', 'platform selector is one of the confirmed classes', cands <= {'KQueueSelector', 'PollSelector', 'SelectSelector'}
          and bool(cands), 'PlatformSelector may be %s: only KQueueSelector / PollSelector / SelectSelector have been confirmed to '
          'report readiness level-triggered' % sorted(cands), func='selectors.SelectorBase.wait', node=None,
